@@ -244,6 +244,17 @@ impl Prop for P {
                 stats.bump("matchall_lead_byte_class_lines");
             }
         }
+        // ---- a third alphabet: characters whose continuation bytes sit at the ends of the continuation range
+        // (0x80 and 0xBF) at every position, next to siblings sharing their prefix: é C3A9 / ÿ C3BF / À C380 / ¿ C2BF,
+        // ☃ E29883 / U+263F E298BF / U+2600 E29880 / U+2FF0 E2BFB0, 😀 F09F9880 / U+1F63F F09F98BF, plus 'a'
+        let edge: [char; 11] = ['a', 'é', 'ÿ', 'À', '¿', '☃', '\u{263F}', '\u{2600}', '\u{2FF0}', '😀', '\u{1F63F}'];
+        let edge_hex = chars_hex(&edge);
+        for q in all_keys(&edge, 2) {
+            for d in 0..=2 {
+                cases.push(format!("matchall {} {} {} {}", hexs(&q), d, if q.chars().count() <= 1 { 3 } else { 2 }, edge_hex));
+                stats.bump("matchall_continuation_edge_lines");
+            }
+        }
         if tier == Tier::Thorough {
             // |q| = 4 against all keys of <= 3 characters, and a sample of |q| = 4 against keys of <= 4
             for q in all_keys(&ALPHA8, 4).iter().filter(|q| q.chars().count() == 4) {
